@@ -119,6 +119,35 @@ pub struct TransportHandle {
     listener_handle: Arc<RwLock<Option<JoinHandle<()>>>>,
 }
 
+/// Removes a pending `/rr/` request from the table when dropped.
+///
+/// `send_request` removes its entry explicitly on every exit, but a caller may drop the future
+/// at any await point (`tokio::time::timeout`, `select!`, task abort). Without this guard such a
+/// cancellation left the entry behind for ever, and `MAX_ACTIVE_REQUESTS` leaked entries made
+/// every later request fail with "Too many active requests".
+struct PendingRequestGuard {
+    active_requests: Arc<RwLock<HashMap<String, PendingRequest>>>,
+    message_id: String,
+}
+
+impl Drop for PendingRequestGuard {
+    fn drop(&mut self) {
+        // Uncontended (and the normal, already-removed) case: finish synchronously.
+        if let Ok(mut reqs) = self.active_requests.try_write() {
+            reqs.remove(&self.message_id);
+            return;
+        }
+        // Contended: the table lock is async, so hand the removal to the runtime.
+        if let Ok(runtime) = tokio::runtime::Handle::try_current() {
+            let active_requests = Arc::clone(&self.active_requests);
+            let message_id = std::mem::take(&mut self.message_id);
+            runtime.spawn(async move {
+                active_requests.write().await.remove(&message_id);
+            });
+        }
+    }
+}
+
 // ============================================================================
 // Construction
 // ============================================================================
@@ -687,6 +716,11 @@ impl TransportHandle {
                 },
             );
         }
+        // From here on the entry is removed on every exit, including cancellation.
+        let _pending_guard = PendingRequestGuard {
+            active_requests: Arc::clone(&self.active_requests),
+            message_id: message_id.clone(),
+        };
 
         let envelope = RequestResponseEnvelope {
             message_id: message_id.clone(),
